@@ -36,6 +36,11 @@ func TestGvcReplaySQLiteRowsKept(t *testing.T) {
 			to := schema.NewNullStringColumn("b", "text")
 			return []schema.Change{&schema.ModifyColumn{From: from, To: to, Change: schema.ChangeType}}
 		}, map[string]string{"id": "id", "a": "a", "c": "c"}},
+		{"new default on a nullable column (rebuild)", func(tbl *schema.Table) []schema.Change {
+			from := col(tbl, "c")
+			to := schema.NewNullStringColumn("c", "text").SetDefault(&schema.Literal{V: "'guest'"})
+			return []schema.Change{&schema.ModifyColumn{From: from, To: to, Change: schema.ChangeDefault}}
+		}, map[string]string{"id": "id", "a": "a", "b": "b", "c": "c"}},
 		{"drop column (rebuild)", func(tbl *schema.Table) []schema.Change {
 			return []schema.Change{&schema.DropColumn{C: col(tbl, "c")}}
 		}, map[string]string{"id": "id", "a": "a", "b": "b"}},
